@@ -13,8 +13,8 @@ package main
 //	(AddSignature: S0; S1 = S0 plus a trailing byte; S2 = S0 with the last byte changed; S3 = a prefix of S0)
 //
 // For every pair (P0, Pk) an exhaustive BFS over {vote of validator i for payload j, vote of an outsider for payload j}:
-// quick to depth 6, thorough to the fixpoint (votes are idempotent, so the space is finite); thorough adds a depth-5
-// BFS over the whole family at once and N = 5, 6.
+// quick N = 4 to depth 6; thorough N = 4 to the fixpoint (votes are idempotent, so the space is finite) plus the whole
+// family at once to depth 4, and N = 5 to depth ceil(2N/3)+3.
 //
 // Oracle (the reference model tallies per FULL payload):
 //	a release for payload P happens exactly in the tx after which >= ceil(2N/3) distinct current validators have
@@ -214,18 +214,23 @@ func payloadPhase(r *ev.Run, pool *ccm.Worlds, bases map[string]polyenv.Dump, nV
 		for k := 1; k < len(f.payloads); k++ {
 			subsets = append(subsets, []int{0, k})
 		}
-		depths := make([]int, len(subsets)) // thorough: 0 = to the fixpoint; quick: depth 6 (a release needs 3 votes, a second payload blocked by the done id 3 more)
-		if r.Quick() {
-			for i := range depths {
-				depths[i] = 6
+		depths := make([]int, len(subsets))
+		for i := range depths {
+			switch {
+			case r.Quick():
+				depths[i] = 6 // a release needs 3 votes, a second payload blocked by the done id 3 more
+			case nVal == 4:
+				depths[i] = 0 // thorough, N = 4: to the fixpoint
+			default:
+				depths[i] = q + 3 // thorough, N = 5
 			}
 		}
-		if r.Thorough() {
+		if r.Thorough() && nVal == 4 { // the whole family at once, depth 4
 			all := []int{}
 			for k := range f.payloads {
 				all = append(all, k)
 			}
-			subsets, depths = append(subsets, all), append(depths, 5)
+			subsets, depths = append(subsets, all), append(depths, 4)
 		}
 		for si, sub := range subsets {
 			sub := sub
